@@ -3,6 +3,7 @@
   that the per-run obligations about `Generated.init` are closed by `decide +kernel`.
 -/
 import Proofs.StepAll
+import Proofs.CanonStep
 
 namespace Measured
 open St
@@ -16,17 +17,74 @@ def checkGInv (s : St) : Bool :=
   (s.dimOfUnit s.one == Dim.number s.ndim) &&
   s.units.all (fun u => u.dim == s.dimOf u.factors) &&
   s.unitBySym.all (fun e => decide (e.2 < s.units.length)) &&
-  s.unitByName.all (fun e => decide (e.2 < s.units.length))
+  s.unitByName.all (fun e => decide (e.2 < s.units.length)) &&
+  s.pfxBySym.all (fun e => decide (e.2.base = 0 ↔ e.2.exp = 0))
 
 theorem checkGInv_sound {s : St} (h : checkGInv s = true) : GInv s := by
   unfold checkGInv at h
   simp only [Bool.and_eq_true, List.all_eq_true, beq_iff_eq, decide_eq_true_eq] at h
-  obtain ⟨⟨⟨⟨⟨⟨h1, h2⟩, h3⟩, h4⟩, h5⟩, h6⟩, h7⟩ := h
-  refine ⟨⟨⟨h1, ?_, h3, h4⟩, h5⟩, ⟨h6, h7⟩⟩
+  obtain ⟨⟨⟨⟨⟨⟨⟨h1, h2⟩, h3⟩, h4⟩, h5⟩, h6⟩, h7⟩, h8⟩ := h
+  refine ⟨⟨⟨h1, ?_, h3, h4⟩, h5⟩, ⟨h6, h7, h8⟩⟩
   intro u hu f hf
   have := h2 u hu
   unfold checkValidF at this
   simp only [List.all_eq_true, decide_eq_true_eq] at this
   exact this f hf
+
+end Measured
+
+namespace Measured
+open St
+
+def nodupB : List Nat → Bool
+  | [] => true
+  | x :: xs => !xs.contains x && nodupB xs
+
+theorem nodupB_sound {l : List Nat} (h : nodupB l = true) : l.Nodup := by
+  induction l with
+  | nil => exact List.nodup_nil
+  | cons x xs ih =>
+    simp only [nodupB, Bool.and_eq_true, Bool.not_eq_true', List.contains_eq_mem, decide_eq_false_iff_not] at h
+    exact List.nodup_cons.2 ⟨h.1, ih h.2⟩
+
+def checkNorm (one : UId) (fs : Factors) : Bool :=
+  fs == [(one, 1)] ||
+    (nodupB (fs.map (·.1)) && fs.all (fun f => f.2 != 0) && !(fs.map (·.1)).contains one && !fs.isEmpty)
+
+theorem checkNorm_sound {one : UId} {fs : Factors} (h : checkNorm one fs = true) : Norm one fs := by
+  unfold checkNorm at h
+  simp only [Bool.or_eq_true, beq_iff_eq, Bool.and_eq_true, List.all_eq_true, bne_iff_ne, ne_eq,
+    Bool.not_eq_true', List.contains_eq_mem, decide_eq_false_iff_not, List.isEmpty_eq_false_iff] at h
+  rcases h with h | ⟨⟨⟨h1, h2⟩, h3⟩, h4⟩
+  · exact Or.inl h
+  · exact Or.inr ⟨⟨nodupB_sound h1, h2⟩, h3, h4⟩
+
+/-- Executable check of the canonical-table invariant: looking a record's own key up finds
+    the record itself (no two records share a key), every factor mapping is in normal
+    form, every prefix is normalised, and `One` is the identity-prefixed base unit. -/
+def checkCanon (s : St) : Bool :=
+  (List.range s.units.length).all (fun i =>
+    findUnit s.units (s.unit! i).pfx (s.unit! i).factors == some i) &&
+  s.units.all (fun u => checkNorm s.one u.factors) &&
+  s.units.all (fun u => decide (u.pfx.base = 0 ↔ u.pfx.exp = 0)) &&
+  decide (s.one < s.units.length) && ((s.unit! s.one).pfx == Pfx.identity) &&
+  ((s.unit! s.one).factors == [(s.one, 1)])
+
+theorem findUnit_congr {us : List UnitRec} {p q : Pfx} {f g : Factors} (hp : p = q)
+    (hk : sortKey f = sortKey g) : findUnit us p f = findUnit us q g := by
+  unfold findUnit; rw [hp, hk]
+
+theorem checkCanon_sound {s : St} (h : checkCanon s = true) : Canon s := by
+  unfold checkCanon at h
+  simp only [Bool.and_eq_true, List.all_eq_true, beq_iff_eq, decide_eq_true_eq, List.mem_range] at h
+  obtain ⟨⟨⟨⟨⟨h1, h2⟩, h3⟩, h4⟩, h5⟩, h6⟩ := h
+  refine ⟨?_, fun u hu => checkNorm_sound (h2 u hu), fun u hu => h3 u hu, ⟨h4, h5, h6⟩⟩
+  intro i j hi hj hp hk
+  have a := h1 i hi
+  have b := h1 j hj
+  rw [unit!_eq hi] at a
+  rw [unit!_eq hj] at b
+  rw [findUnit_congr hp hk, b] at a
+  injection a with a; exact a.symm
 
 end Measured
